@@ -1,5 +1,7 @@
 import GeoVerif.Drv.Util
 import GeoVerif.Drv.C06
+import GeoVerif.Drv.C19
+import GeoVerif.Drv.C08
 import GeoVerif.Drv.C09
 import GeoVerif.Drv.C20
 import GeoVerif.Drv.C12
@@ -46,6 +48,8 @@ def handle (line : String) : String :=
     | ["fl", op] => handleFL op args
     | ["io", op] => handleIO op args
     | ["bd", op] => handleBD op args
+    | ["co", op] => handleCo op args
+    | ["dms", op] => handleDms op args
     | _ => "bad-op"
 
 partial def loop (i o : IO.FS.Stream) : IO Unit := do
